@@ -14,6 +14,10 @@ def _same(a, snap):
     return np.array_equal(np.asarray(a).view(np.uint64) if isinstance(a, np.ndarray) and a.dtype == np.float64 else a, snap)
 
 
+def _boom(*a, **k):             # module level: the task is pickled for the worker process
+    raise RuntimeError('injected')
+
+
 def replay(w):
     import fast_ticc
     import fast_ticc.admm as admm
@@ -72,10 +76,8 @@ def replay(w):
             if kind == 'failing' and int(nt.get('which', 0)) < 2:
                 real = admm.admm_optimize_theta
 
-                def boom(*a, **k):
-                    raise RuntimeError('injected')
                 def call():
-                    admm.admm_optimize_theta = boom
+                    admm.admm_optimize_theta = _boom
                     try:
                         fast_ticc.ticc_labels(series[0], **kw)
                     except RuntimeError:
@@ -107,4 +109,25 @@ def replay(w):
 
 
 def validate(witnesses):
-    return {'checked': 0, 'agree': 0, 'skipped': len(witnesses), 'disagree': []}
+    """Paths on which the engine saw no write to a caller-owned buffer: the real build, given
+    read-only NumPy arrays of the same kinds, must neither raise nor change a byte."""
+    import json
+    checked = agree = skipped = 0
+    disagree, seen = [], set()
+    for w in witnesses:
+        nt = w.get('notes') or {}
+        key = json.dumps({k: v for k, v in nt.items() if k != 'maxit'}, sort_keys=True, default=str)
+        if key in seen or len(seen) >= 24 or 'unexpected_exception' in nt:
+            skipped += 1
+            continue
+        seen.add(key)
+        r = replay(w)
+        if 'unhandled' in (r.get('observed') or {}):
+            skipped += 1
+            continue
+        checked += 1
+        if r['reproduced']:
+            disagree.append({'notes': nt, 'real_build': r})
+        else:
+            agree += 1
+    return {'checked': checked, 'agree': agree, 'skipped': skipped, 'disagree': disagree[:5]}
